@@ -362,6 +362,14 @@ func (l *c13List) listCase(mode, stream string) *Case {
 		if ne == l.N {
 			tags = append(tags, "all-Empty")
 		}
+		if l.Empty[0] {
+			// the FIRST non-null item of the list is Empty(): it writes nothing, and the separator
+			// after it must still be written
+			tags = append(tags, "leading-Empty")
+			if len(l.Inj) > 0 && len(l.Inj[0]) > 0 {
+				tags = append(tags, "leading-Empty-after-nulls")
+			}
+		}
 	}
 	if l.N >= 5 && l.injected() > 0 {
 		tags = append(tags, "null-in-arity>=5")
@@ -502,6 +510,54 @@ func (c13) Generate(r *rand.Rand, t string) []*Case {
 		out = append(out, cs)
 	}
 
+	// leading Empty(): the documented shapes with their raw bytes fixed, nil / Null() items
+	// before the Empty() in every combination of kinds (quick: one kind pair per shape and
+	// rotation; the sweep above covers every construct, these pin the bytes).
+	lead := []struct {
+		cons  string
+		empty []bool
+		want  string
+	}{
+		{"Index", []bool{true, false}, "[:i1]"},           // a[:x]
+		{"Index", []bool{true, false, false}, "[:i1:i2]"}, // a[:2:3]
+		{"Index", []bool{true, true}, "[:]"},              // a[:]
+		{"Index", []bool{true, true, false}, "[::i2]"},    //
+		{"For", []bool{true, false, true}, "for ;i1;"},    // for ; c ; {}
+		{"For", []bool{true, true, false}, "for ;;i2"},    //
+		{"If", []bool{true, false}, "if ;i1"},             //
+		{"Switch", []bool{true, false}, "switch ;i1"},     //
+		{"Call", []bool{true, false}, "(,i1)"},            // (not Go; the separator rule is the same)
+		{"List", []bool{true, false}, ",i1"},              //
+		{"Return", []bool{true, false}, "return ,i1"},     //
+		{"Union", []bool{true, false, false}, "|i1|i2"},   //
+		{"Custom1", []bool{true, false}, "<;i1>"},         //
+		{"Custom2", []bool{true, true, false}, ",,i2"},    //
+	}
+	for li, sh := range lead {
+		for v := 0; v < len(c13Kinds); v++ {
+			n := len(sh.empty)
+			l := &c13List{Cons: consByName(cons, sh.cons), N: n, Empty: sh.empty, Inj: make([][]c13Inj, n+1)}
+			// 1..2 nullish items before the leading Empty(), sometimes more elsewhere
+			l.Inj[0] = []c13Inj{{Kind: c13Kinds[v], Variant: li + v}}
+			if (li+v)%2 == 0 {
+				l.Inj[0] = append(l.Inj[0], c13Inj{Kind: c13Kinds[(v+3)%len(c13Kinds)], Variant: li})
+			}
+			if (li+v)%3 == 0 {
+				l.Inj[1+r.Intn(n)] = []c13Inj{rk()}
+			}
+			cs := l.listCase("file", "empty")
+			cs.NonTrivial = true
+			cs.Meta["wantraw"] = sh.want
+			out = append(out, cs)
+		}
+	}
+
+	// render-twice: one tree rendered two or three times in one history
+	nt := tier(t, 2500, 40000)
+	for i := 0; i < nt; i++ {
+		out = append(out, c13TwiceCase(r, cons, i))
+	}
+
 	// (4) fixed-arity constructs (the other built-in calls, Parens, Assert, Map, ...): no
 	// item can be added, so every argument is replaced by a nullish item of one kind in
 	// the first render and by a nullish item of another kind in the second.
@@ -533,6 +589,126 @@ func (c13) Generate(r *rand.Rand, t string) []*Case {
 		out = append(out, c13ProgramCase(r, thorough))
 	}
 	return out
+}
+
+// ---------------------------------------------------------------------------------------
+// render-twice
+
+// c13TwiceCase: ONE tree (the same jen values) is rendered two or three times in one
+// history, and so is its twin without null items.  The tree holds a list with nullish items
+// BEFORE real items (slot 0 always, other slots at random).  Ways of rendering:
+//
+//	plain   Statement.Render (formatted; a fresh File each time)
+//	file    File.Render of a NoFormat File holding the statement (the same File every time)
+//	rcode   Statement.RenderWithFile with that File (formatted)
+//
+// Sequences: plain x2..3, file x2..3, plain+file, file+plain, plain+file+plain, file+rcode+file,
+// rcode+rcode.  In "dictkey" cases the list sits inside a Dict KEY (a key is rendered twice
+// within one render: once for its sort text, once into the output); in "program" cases the
+// tree is a whole formatted File of 1..4 declarations rendered 2..3 times.
+//
+// Observations: the k renders of the injected tree, then the k renders of the clean twin.
+// Oracle: render i of the injected tree = render i of the twin; every render equals the
+// first render made in the same way (same bytes, nothing accumulates or shifts).
+func c13TwiceCase(r *rand.Rand, cons []c13Cons, i int) *Case {
+	seqs := [][]string{
+		{"plain", "plain"}, {"plain", "plain", "plain"}, {"file", "file"}, {"file", "file", "file"},
+		{"plain", "file"}, {"file", "plain"}, {"plain", "file", "plain"}, {"file", "rcode", "file"}, {"rcode", "rcode"},
+	}
+	ways := seqs[r.Intn(len(seqs))]
+	tags := []string{"rendered-twice", "ways=" + strings.Join(ways, "+"), fmt.Sprintf("renders=%d", len(ways))}
+	var inj, clean *term.Stmt
+	injected := 0
+	switch k := r.Intn(8); {
+	case k == 0:
+		// a whole program: formatted File rendered several times
+		p := &c13Prog{r: r, paths: []string{"fmt", "a.b/d", "c.b/d"}}
+		z := &c13Injector{R: r, Rate: 25, On: true}
+		var ds, is []*term.Stmt
+		for j := 1 + r.Intn(4); j > 0; j-- {
+			d := p.decl()
+			ds = append(ds, d)
+			is = append(is, z.Stmt(d))
+		}
+		injected = z.Count
+		nr := 2 + r.Intn(2)
+		var h hist.History
+		for f, decls := range [][]*term.Stmt{is, ds} {
+			h = append(h, hist.Op{Kind: "newfile", F: f, A: "p"})
+			for _, d := range decls {
+				h = append(h, hist.Op{Kind: "fadd", F: f, Code: d})
+			}
+			for j := 0; j < nr; j++ {
+				h = append(h, hist.Op{Kind: "render", F: f})
+			}
+		}
+		ws := make([]string, nr)
+		for j := range ws {
+			ws[j] = "file"
+		}
+		tags = []string{"rendered-twice", "ways=program-file", fmt.Sprintf("renders=%d", nr), fmt.Sprintf("injected=%d", min3((injected+4)/5*5, 30))}
+		sort.Strings(tags)
+		return &Case{Hist: h, Stream: "render-twice", Tags: tags,
+			// non-trivial: at least one nullish item sits in a list that is rendered more than once
+			NonTrivial: injected > 0,
+			Meta:       map[string]interface{}{"kind": "twice", "ways": ws}}
+	default:
+		// one list construct of arity 1..5 with nullish items before the first real item
+		c := cons[r.Intn(len(cons))]
+		n := 1 + r.Intn(5)
+		l := &c13List{Cons: c, N: n, Inj: make([][]c13Inj, n+1)}
+		rk := func() c13Inj { return c13Inj{Kind: c13Kinds[r.Intn(len(c13Kinds))], Variant: r.Intn(36)} }
+		for m := 1 + r.Intn(2); m > 0; m-- {
+			l.Inj[0] = append(l.Inj[0], rk())
+		}
+		for s := 1; s <= n; s++ {
+			if r.Intn(3) == 0 {
+				l.Inj[s] = append(l.Inj[s], rk())
+			}
+		}
+		if r.Intn(6) == 0 {
+			l.Empty = make([]bool, n)
+			l.Empty[r.Intn(n)] = true
+		}
+		injected = l.injected()
+		tags = append(tags, "construct="+c.Name, fmt.Sprintf("arity=%d", n))
+		if k == 1 && c.Method != "stmt" {
+			// the list inside a Dict key: T{ f <list> : 1, k2: 2 }
+			wrap := func(st *term.Stmt) *term.Stmt {
+				d := &term.Dict{Pairs: [][2]term.Node{
+					{term.S(term.Id("k"), st.Items[0]), term.S(term.Lit(1))},
+					{term.S(term.Id("k2")), term.S(term.Lit(2))}}}
+				return term.S(term.Id("_"), term.Op("="), term.Id("T"), term.G("Values", d))
+			}
+			inj, clean = wrap(l.bare(true)), wrap(l.bare(false))
+			tags = append(tags, "null-list-in-dict-key")
+		} else {
+			inj, clean = l.plain(true), l.plain(false)
+		}
+	}
+	var h hist.History
+	for f, st := range []*term.Stmt{inj, clean} {
+		hasFile := false
+		for _, w := range ways {
+			if w != "plain" && !hasFile {
+				hasFile = true
+				h = append(h, hist.Op{Kind: "newfile", F: f, A: "p"}, hist.Op{Kind: "noformat", F: f, Flag: true},
+					hist.Op{Kind: "fadd", F: f, Code: st})
+			}
+			switch w {
+			case "plain":
+				h = append(h, hist.Op{Kind: "rplain", Code: st})
+			case "file":
+				h = append(h, hist.Op{Kind: "render", F: f})
+			case "rcode":
+				h = append(h, hist.Op{Kind: "rcode", F: f, Code: st})
+			}
+		}
+	}
+	sort.Strings(tags)
+	return &Case{Hist: h, Stream: "render-twice", Tags: uniqStrings(tags),
+		NonTrivial: injected > 0,
+		Meta:       map[string]interface{}{"kind": "twice", "ways": ways}}
 }
 
 // c13TwoArg: methods func(Code, Code) *Statement of *jen.Statement.
@@ -1115,6 +1291,9 @@ func (c13) Oracle(c *Case, got []hist.Obs) string {
 			if !ok {
 				return fmt.Sprintf("unexpected file frame %q", got[1].Out)
 			}
+			if want, ok := c.Meta["wantraw"].(string); ok && body != want {
+				return fmt.Sprintf("raw text %q, want %q", body, want)
+			}
 			return C13CheckList(body, names, cons.Sep, cons.Multi, cons.HasClose, cons.Known)
 		}
 		if want, ok := c.Meta["want"].(string); ok {
@@ -1135,6 +1314,27 @@ func (c13) Oracle(c *Case, got []hist.Obs) string {
 			}
 			if i/2 < len(wants) && (got[i].Kind != "write" || got[i].Out != wants[i/2]) {
 				return fmt.Sprintf("pair %d: rendered %s, want %q", i/2, got[i], wants[i/2])
+			}
+		}
+		return ""
+	case "twice":
+		ways, _ := c.Meta["ways"].([]string)
+		k := len(ways)
+		if len(got) != 2*k {
+			return fmt.Sprintf("expected %d observations, got %d", 2*k, len(got))
+		}
+		first := map[string]int{}
+		for i, w := range ways {
+			if msg := c13SameRender(got[i], got[k+i]); msg != "" {
+				return fmt.Sprintf("render %d (%s): %s", i, w, msg)
+			}
+			j, seen := first[w]
+			if !seen {
+				first[w] = i
+				continue
+			}
+			if got[i].Kind != got[j].Kind || got[i].Out != got[j].Out {
+				return fmt.Sprintf("render %d of the same tree (%s) differs from render %d:\n first: %s\n later: %s", i, w, j, got[j], got[i])
 			}
 		}
 		return ""
